@@ -1,9 +1,10 @@
-\* C15 design: rlock, 3 contenders x 2 rounds (RLock nesting depth 2, semaphore value 2)
+\* MUST FAIL: D_sem_read_outside
+\* C15 design: sem, 3 contenders x 2 rounds (RLock nesting depth 2, semaphore value 2)
 SPECIFICATION Spec
 CONSTANTS
-  Dev = {}
+  Dev = {"D_sem_read_outside"}
   Procs = {p1, p2, p3}
-  Kind = "rlock"
+  Kind = "sem"
   Permits = 2
   Rounds = 2
   Depth = 2
@@ -11,5 +12,4 @@ INVARIANT MutualExclusion
 INVARIANT SemBound
 INVARIANT RLockOwner
 INVARIANT FreeWhenNoHolder
-PROPERTY AllDone
 CHECK_DEADLOCK FALSE
